@@ -644,6 +644,12 @@ func handleAddition(left, right interface{}, operator token.Token) interface{} {
 			return fmt.Sprintf("%v", leftNum) + string(rightStr)
 		}
 	case string:
+		if r, ok := right.(bool); ok {
+			if r {
+				return l + "true"
+			}
+			return l + "false"
+		}
 		rightStr, err := stringifyOperand(right)
 		if err != nil {
 			utils.RuntimeError(operator, "Right operand must be a string or number.")
